@@ -50,14 +50,20 @@ func symxC12() {
 	symxTick()
 	cNew.feed(symxSubscribeBytes(1, "n", 0))
 	rt.Quiesce()
-	oldAlive := true
+	oldAlive, newAlive := true, true
 	merged := false // has the old session's node merged the takeover?
 	if newB == b1 {
 		merged = true
 	}
 	for step := 0; step < steps; step++ {
 		symxTick()
-		switch rt.Int("event", 0, 3) {
+		switch rt.Int("event", 0, 4) {
+		case 4: // the displacing session ends cleanly
+			if newAlive {
+				cNew.feed(symxDisconnect())
+				rt.Quiesce()
+				newAlive = false
+			}
 		case 0:
 			symxExchange(b1, b2)
 			merged = true
@@ -105,6 +111,11 @@ func symxC12() {
 	rt.Assert(b1.local.Get("old") == nil, "C12.old_session_gone")
 	for _, b := range []*symxBroker{b1, b2} {
 		md, err := b.state.SessionMetadatas().ByClientID("m", "cid")
+		if !newAlive {
+			rt.Assert(err != nil, "C12.identifier_resolves_to_nothing_once_the_new_session_ended_too")
+			rt.Assert(len(b.state.Subscriptions().All()) == 0, "C12.no_subscription_left_once_both_sessions_ended")
+			continue
+		}
 		rt.Assert(err == nil && md.SessionID == newID, "C12.every_node_resolves_the_identifier_to_the_new_session")
 		subs := b.state.Subscriptions().All()
 		found := false
@@ -116,7 +127,7 @@ func symxC12() {
 		}
 		rt.Assert(found, "C12.new_sessions_subscription_survives_old_teardown")
 	}
-	rt.Assert(newB.local.Get(newID) != nil, "C12.new_session_still_registered")
+	rt.Assert((newB.local.Get(newID) != nil) == newAlive, "C12.new_session_still_registered")
 	// a third node hears the same gossip late and out of order (the solver swaps two broadcasts)
 	b3 := symxNewBroker(3, 1)
 	log := append([][]byte(nil), symxGossipLog...)
@@ -128,8 +139,12 @@ func symxC12() {
 		b3.state.Distributor().NotifyMsg(p)
 	}
 	md3, err3 := b3.state.SessionMetadatas().ByClientID("m", "cid")
-	rt.Assert(err3 == nil && md3.SessionID == newID, "C12.a_node_hearing_the_gossip_out_of_order_resolves_to_the_new_session")
-	rt.Assert(len(b3.state.SessionMetadatas().All()) == 1, "C12.only_the_new_session_is_listed_on_a_late_node")
+	if newAlive {
+		rt.Assert(err3 == nil && md3.SessionID == newID, "C12.a_node_hearing_the_gossip_out_of_order_resolves_to_the_new_session")
+		rt.Assert(len(b3.state.SessionMetadatas().All()) == 1, "C12.only_the_new_session_is_listed_on_a_late_node")
+	} else {
+		rt.Assert(err3 != nil && len(b3.state.SessionMetadatas().All()) == 0, "C12.nothing_listed_on_a_late_node_once_both_ended")
+	}
 	b3.cancel()
 	rt.Cover(newB == b2, "C12.takeover_across_nodes")
 	b1.cancel()
